@@ -1043,6 +1043,9 @@ def m_fold(it, st, fr, t, args, ga):
 def m_slice_index(it, st, fr, t, args, ga):
     c = _cont(it, st, args[0])
     r = args[1]
+    if c.len is None:
+        # a container whose length the model does not track (e.g. the storage slice of a ring buffer): a fresh length symbol
+        c.len = st.ctx.sym_range(st.fresh_name('len'), 0, 2 ** 32, integer=True)
     if isinstance(r, I.Num):
         # slice[i]: bounds obligation + element term
         ok = st.ctx.decide(cmp_term('Lt', r.term, c.len))
